@@ -207,6 +207,7 @@ def handle (op : String) (args : List String) : String :=
   match op, args with
   | "conn", [st, script, chunks, cor, _rb, _wb] => conn st script chunks cor
   | "read", [st, modes, stream, chunks, _rb, _claim] => readOnly st modes stream chunks
+  | "read", [st, modes, stream, chunks, _rb] => readOnly st modes stream chunks
   | "wlen", [p, l] => wlen p l
   | "hs", [_seed, enc, proto, cpk, spk, _chunk, cor] => hsOp enc proto cpk spk cor
   | _, _ => "bad-op"
